@@ -149,13 +149,6 @@ func c04Encode(r *fw.Rec, f c04Field, enc *reedsolomon.ReedSolomonEncoder, data 
 	return word, true
 }
 
-func clip(a []int) []int {
-	if len(a) > 40 {
-		return a[:40]
-	}
-	return a
-}
-
 // decodeAndCheck corrupts word at pos with magnitudes mags (non-zero xor) and demands exact restoration.
 func c04Decode(r *fw.Rec, f c04Field, dec *reedsolomon.ReedSolomonDecoder, word []int, ec int, pos, mags []int) bool {
 	recv := append([]int{}, word...)
